@@ -786,6 +786,71 @@ func refusedReplacement(r *rep.Report, via string) {
 	}
 }
 
+// ruleLikeFacts: a fact may carry a `rule` property; whatever is ACCEPTED under that key (through
+// facts/add or rules/add) must not stop events from reaching the ordinary rule with the same `when`.
+func ruleLikeFacts(r *rep.Report, via string) {
+	when := func() map[string]interface{} {
+		return map[string]interface{}{"pattern": map[string]interface{}{"rl": "1"}}
+	}
+	docs := []struct {
+		op  string
+		doc map[string]interface{}
+	}{
+		{"addFact", map[string]interface{}{"rule": map[string]interface{}{"when": when()}}},
+		{"addFact", map[string]interface{}{"rule": map[string]interface{}{"when": when(), "action": 5.0}}},
+		{"addFact", map[string]interface{}{"rule": map[string]interface{}{"when": when(), "condition": 5.0, "action": map[string]interface{}{"code": "1"}}}},
+		{"addFact", map[string]interface{}{"rule": map[string]interface{}{"when": when(), "actions": "all of them"}}},
+		{"addFact", map[string]interface{}{"rule": map[string]interface{}{"when": when(), "action": map[string]interface{}{"code": "1"}, "expires": "soon"}}},
+		{"addFact", map[string]interface{}{"rule": map[string]interface{}{"when": when(), "schedule": "+1h", "action": map[string]interface{}{"code": "1"}}}},
+		{"addFact", map[string]interface{}{"rule": map[string]interface{}{"when": map[string]interface{}{"pattern": map[string]interface{}{"?k": "1", "other": 1.0}}, "action": map[string]interface{}{"code": "1"}}}},
+		{"addRule", map[string]interface{}{"when": map[string]interface{}{"pattern": map[string]interface{}{"?k": "1", "other": 1.0}}, "action": map[string]interface{}{"code": "1"}}},
+		{"addRule", map[string]interface{}{"when": map[string]interface{}{"pattern": map[string]interface{}{"rl": []interface{}{"?a", "?b"}}}, "action": map[string]interface{}{"code": "1"}}},
+	}
+	for half := 0; half < 2; half++ {
+		kind := drv.Kinds[half]
+		for di, d := range docs {
+			var t target
+			switch via {
+			case "loc":
+				t = newLocTarget(kind)
+			case "sys":
+				t = newSysTarget(kind == "linear")
+			default:
+				t = newHTTPTarget(kind == "linear")
+			}
+			good := map[string]interface{}{"when": when(), "action": map[string]interface{}{"code": "'good rule fired'"}}
+			if _, err := t.do(call{Via: via, State: kind, Op: "addRule", Id: "good", Doc: good}); err != nil {
+				r.Violate("", "cannot add an ordinary rule: "+err.Error(), nil)
+				continue
+			}
+			c := call{Via: via, State: kind, Op: d.op, Id: "rulelike", Doc: d.doc}
+			r.Journal(c)
+			var derr error
+			returned, pan := drv.Guard(callLimit, func() { _, derr = t.do(c) })
+			r.Case(true, fmt.Sprint("rule-like", via, kind, di))
+			r.Count("rule_like_items", 1)
+			wit := rep.J{"call": c, "error": drv.ErrStr(derr), "accepted": derr == nil}
+			if !returned || pan != "" {
+				r.Violate("", "adding a rule-like item hangs or panics: "+firstLine(pan), wit)
+				return
+			}
+			var out string
+			var eerr error
+			ret2, pan2 := drv.Guard(callLimit, func() {
+				out, eerr = t.do(call{Via: via, State: kind, Op: "event", Doc: map[string]interface{}{"rl": "1", "other": 1.0}})
+			})
+			wit["event_result"], wit["event_error"] = out, drv.ErrStr(eerr)
+			if !ret2 || pan2 != "" {
+				r.Violate("", "an event after a rule-like item hangs or panics: "+firstLine(pan2), wit)
+				return
+			}
+			if !strings.Contains(out, "good rule fired") {
+				r.Violate("", fmt.Sprintf("rule-like item %d (%s, %s, accepted=%v): afterwards an event no longer reaches the ordinary rule with a matching `when`", di, d.op, kind, derr == nil), wit)
+			}
+		}
+	}
+}
+
 func hquery(g *gen.Gen, depth int) interface{} {
 	if depth <= 0 || g.Intn(3) == 0 {
 		switch g.Intn(4) {
@@ -840,6 +905,7 @@ func main() {
 			storedVarStrings(r, e, e.Stage)
 			r.WritePartial()
 			refusedReplacement(r, e.Stage)
+			ruleLikeFacts(r, e.Stage)
 			hostileScripts(r, e, e.Stage)
 		}
 		campaign(r, e, e.Stage)
